@@ -417,6 +417,9 @@ type SliceOpts struct {
 	ThroughCalls bool
 	// NoMemory disables following stores into local cells.
 	NoMemory bool
+	// Stop, if set, is asked for every value reached; a value for which it
+	// returns true is part of the slice but its operands are not followed.
+	Stop func(ssa.Value) bool
 }
 
 // AddrKey returns a canonical key for an address expression so that two
@@ -468,6 +471,9 @@ func BackSlice(v ssa.Value, opts SliceOpts) map[ssa.Value]bool {
 			return
 		}
 		seen[v] = true
+		if opts.Stop != nil && opts.Stop(v) {
+			return
+		}
 		switch v := v.(type) {
 		case *ssa.Phi:
 			for _, e := range v.Edges {
@@ -1303,4 +1309,109 @@ func MustDerive(v ssa.Value, pred func(ssa.Value) bool, throughCalls bool) bool 
 		return res
 	}
 	return must(v)
+}
+
+// IntCmpConstEdges returns the edges on which the integer value matched by
+// isX satisfies pred, for every comparison of that value with a constant (in
+// either operand order, through negations): an edge is included when all
+// values the comparison admits on it satisfy pred. nonNegative says that the
+// value is known to be >= 0 (a length or count).
+func IntCmpConstEdges(fn *ssa.Function, isX func(ssa.Value) bool, nonNegative bool, pred func(lo, hi int64) bool) map[Edge]bool {
+	const inf = int64(1) << 62
+	out := map[Edge]bool{}
+	flip := map[token.Token]token.Token{token.LSS: token.GTR, token.GTR: token.LSS, token.LEQ: token.GEQ, token.GEQ: token.LEQ, token.EQL: token.EQL, token.NEQ: token.NEQ}
+	for _, b := range fn.Blocks {
+		if len(b.Instrs) == 0 {
+			continue
+		}
+		iff, ok := b.Instrs[len(b.Instrs)-1].(*ssa.If)
+		if !ok {
+			continue
+		}
+		cond, neg := StripNot(iff.Cond)
+		bo, ok := cond.(*ssa.BinOp)
+		if !ok {
+			continue
+		}
+		op := bo.Op
+		var k int64
+		if kk, isK := ConstInt(bo.Y); isK && isX(bo.X) {
+			k = kk
+		} else if kk, isK := ConstInt(bo.X); isK && isX(bo.Y) {
+			k = kk
+			op = flip[op]
+			if op == 0 {
+				continue
+			}
+		} else {
+			continue
+		}
+		min := -inf
+		if nonNegative {
+			min = 0
+		}
+		for succ, truth := range []bool{true, false} {
+			if neg {
+				truth = !truth
+			}
+			// the interval(s) of x on this edge; NEQ true / EQL false give two intervals
+			type iv struct{ lo, hi int64 }
+			var ivs []iv
+			switch {
+			case op == token.EQL && truth, op == token.NEQ && !truth:
+				ivs = []iv{{k, k}}
+			case op == token.EQL && !truth, op == token.NEQ && truth:
+				ivs = []iv{{min, k - 1}, {k + 1, inf}}
+			case op == token.LSS && truth, op == token.GEQ && !truth:
+				ivs = []iv{{min, k - 1}}
+			case op == token.LEQ && truth, op == token.GTR && !truth:
+				ivs = []iv{{min, k}}
+			case op == token.GTR && truth, op == token.LEQ && !truth:
+				ivs = []iv{{k + 1, inf}}
+			case op == token.GEQ && truth, op == token.LSS && !truth:
+				ivs = []iv{{k, inf}}
+			default:
+				continue
+			}
+			all, any := true, false
+			for _, v := range ivs {
+				if v.lo > v.hi {
+					continue // empty
+				}
+				any = true
+				if !pred(v.lo, v.hi) {
+					all = false
+				}
+			}
+			if all && any {
+				out[Edge{Block: b.Index, Succ: succ}] = true
+			}
+		}
+	}
+	return out
+}
+
+// LenZeroEdges returns the edges on which len(x) == 0 is known, for the x
+// accepted by isX (the argument of the len call); LenNonZeroEdges the edges on
+// which len(x) > 0 is known. All comparison spellings are understood
+// (== 0, != 0, > 0, >= 1, < 1, 0 < len, …).
+func LenZeroEdges(fn *ssa.Function, isX func(ssa.Value) bool) map[Edge]bool {
+	return IntCmpConstEdges(fn, lenOf(isX), true, func(lo, hi int64) bool { return lo == 0 && hi == 0 })
+}
+
+func LenNonZeroEdges(fn *ssa.Function, isX func(ssa.Value) bool) map[Edge]bool {
+	return IntCmpConstEdges(fn, lenOf(isX), true, func(lo, hi int64) bool { return lo >= 1 })
+}
+
+func lenOf(isX func(ssa.Value) bool) func(ssa.Value) bool {
+	return func(v ssa.Value) bool {
+		call, ok := v.(*ssa.Call)
+		if !ok {
+			return false
+		}
+		if b, isB := call.Call.Value.(*ssa.Builtin); !isB || b.Name() != "len" {
+			return false
+		}
+		return isX(call.Call.Args[0])
+	}
 }
